@@ -21,14 +21,49 @@ def cfg(tier):
     if tier == "thorough":
         vals += [2, 9, 10, 11, 69, 70, 71, 999, 1000, 2**16 - 1, 2**16 + 1, 2**31, 2**31 + 1, 2**32 - 2, 12345678, 3 * 2**30]
     texts = TEXTS_Q if tier == "quick" else TEXTS_T
+    # boundary of the domain "exact price fits the Unsigned32 Price AVP": floor((2^32-1)/cost) and its neighbours,
+    # for every plain integer tariff among the texts
+    top = 2**32 - 1
+    for t in texts:
+        if t.isdigit() and 1 < int(t) <= top:
+            q = top // int(t)
+            vals += [x for x in (q - 1, q, q + 1) if 0 <= x <= top]
+    vals = sorted(set(vals))
     return dict(CostTexts="{" + ", ".join(chars(t) for t in texts) + "}",
                 Subs=S("debit", "reserve", "aoc", "release"),
                 Values="{" + ", ".join(tla_limbs(v) for v in vals) + "}", EmitOneIn=1), 100000
 
 
+SEEN = []
+
+
 def to_behaviour(hist, bid):
     c = hist[0]
-    return dict(id=bid, cost=c["cost"], sub=c["sub"], consumed=c["consumed"], quota=c["quota"], steps=[1])
+    b = dict(id=bid, cost=c["cost"], sub=c["sub"], consumed=c["consumed"], quota=c["quota"], steps=[1])
+    SEEN.append(b)
+    return b
+
+
+class Batches:
+    """Concurrent half: the enumerated cases with a plain integer tariff, regrouped (seeded) into batches whose members
+    are sent at the same moment for different subscribers over different connections.  Evaluated lazily, after the
+    model's cases have been collected."""
+
+    def __init__(self, tier):
+        self.tier = tier
+
+    def __iter__(self):
+        import random
+        rnd = random.Random(core.seed())
+        plain = [b for b in SEEN if "".join(b["cost"]).isdigit() and 0 < int("".join(b["cost"])) < 2**16 and b["sub"] in ("debit", "reserve")]
+        rnd.shuffle(plain)
+        nb = 6 if self.tier == "quick" else 40
+        for i in range(nb):
+            members = plain[i * 16:(i + 1) * 16]
+            if len(members) < 2:
+                break
+            yield dict(id="C08-batch%d" % i, cost=[], sub="", consumed=[], quota=[], steps=[1] * (len(members) * 5),
+                       batch=[dict(id="m", cost=m["cost"], sub=m["sub"], consumed=m["consumed"], quota=m["quota"]) for m in members], rounds=5)
 
 
 def check(pid, tier, replay=None):
@@ -38,7 +73,7 @@ def check(pid, tier, replay=None):
     return pipe.standard_check(
         pid, tier, family="rating", base_module="RatingMC", consts=consts, invariants=["InvModelClauses"], n_beh=n_beh,
         to_behaviour=to_behaviour, harness_mode="rating", trace_module="RatingTrace",
-        trace_consts={k: core.tla_bool(v) for k, v in dev.items()}, clauses=None, replay=replay, chunk=24,
+        trace_consts={k: core.tla_bool(v) for k, v in dev.items()}, clauses=None, replay=replay, chunk=24, extra=Batches(tier),
         explanation="TLC enumerated every (stored unit-cost text, request sub-type, boundary value) case of RatingMC and "
                     "checked the exactness clauses on the model; EVERY case was then executed against the real rating "
                     "server over TLS Diameter (request, one-unit probe, CHF-side getUnitCost) and judged by RatingTrace",
